@@ -92,7 +92,9 @@ def compile_many(jobs, cwd):
     with cf.ThreadPoolExecutor(NPROC) as ex:
         for src, rc, err in ex.map(one, jobs):
             if rc != 0:
-                errs.append('%s:\n%s' % (src, err[-3000:]))
+                # keep every "<generated file>:<line>:" reference (they locate the offending generated block) + the tail
+                refs = sorted(set(re.findall(r'%s:\d+:' % re.escape(os.path.basename(src)), err)))
+                errs.append('%s:\n%s\n%s' % (src, ' '.join(refs[:400]), err[-3000:]))
     return errs
 
 
@@ -185,7 +187,9 @@ def build_generated_harness(name, files, std='c++17', extra_flags=None, sanitize
     jobs = [(s_, s_[:-4] + '.o', flags) for s_ in srcs]
     errs = compile_many(jobs, out)
     if errs:
-        raise BuildError('generated %s harness does not compile against /repo:\n' % name + '\n'.join(errs[:3]))
+        e = BuildError('generated %s harness does not compile against /repo:\n' % name + '\n'.join(errs[:3]))
+        e.full = '\n'.join(errs)
+        raise e
     r = sh(['g++'] + (['-fsanitize=address,undefined'] if sanitize else []) + [j[1] for j in jobs] + ['-o', exe + '.tmp'])
     if r.returncode != 0:
         raise BuildError('%s harness link failed:\n' % name + r.stderr[-3000:])
